@@ -283,8 +283,8 @@ def snap(W):
         out[n] = {
             "vol": lw.volumes,
             "comp": {k: v.copy() for k, v in lw.composition.items()},
-            "labels": list(lw._labels),
-            "hist": [h.copy() for h in lw._history],
+            "labels": [l for l, _ in lw.history],
+            "hist": [h.copy() for _, h in lw.history],
         }
     return out
 
